@@ -87,10 +87,32 @@ def gen_addr(rnd, family=None):
         form = rnd.choice(["0::ffff:%d.%d.%d.%d", "0::%d.%d.%d.%d", "0:0:0:0:0:ffff:%d.%d.%d.%d"])
         txt = form % tuple(b)
         return txt, addr_value(txt)
-    pz = rnd.choice([0.2, 0.5, 0.7, 0.85])
-    groups = [0 if rnd.random() < pz else
-              rnd.choice([1, 0xf, 0x12, 0xff, 0x123, 0xfff, 0x1234, 0xffff, rnd.randrange(1, 65536)])
-              for _ in range(8)]
+    def digits(n):
+        lo = [0, 1, 0x10, 0x100, 0x1000][n]
+        hi = [0, 0xf, 0xff, 0xfff, 0xffff][n]
+        return rnd.choice([lo, hi, rnd.randint(lo, hi)]) if n else 0
+    mode = rnd.random()
+    if mode < 0.55:
+        pz = rnd.choice([0.2, 0.5, 0.7, 0.85])
+        groups = [0 if rnd.random() < pz else
+                  rnd.choice([1, 0xf, 0x12, 0xff, 0x123, 0xfff, 0x1234, 0xffff, rnd.randrange(1, 65536)])
+                  for _ in range(8)]
+    elif mode < 0.7:
+        # the zero / 1-4 digit pattern of each group, sampled uniformly
+        groups = [digits(rnd.randrange(5)) for _ in range(8)]
+    elif mode < 0.8:
+        # every group at full width: the longest possible text (39 characters)
+        groups = [digits(4) for _ in range(8)]
+    elif mode < 0.9:
+        k = rnd.randint(1, 4)
+        groups = [digits(k) for _ in range(8)]
+    else:
+        # one zero run of every length at every position, the rest full width
+        n = rnd.randint(1, 7)
+        at = rnd.randint(0, 8 - n)
+        groups = [0 if at <= i < at + n else digits(rnd.choice([1, 4, 4])) for i in range(8)]
+    if groups[:5] == [0] * 5 and groups[5] in (0, 0xffff) and groups[6] != 0:
+        groups[0] = 1       # would be an IPv4-mapped/-compatible form: covered by the branch above
     style = rnd.choice(["canon", "canon", "full", "anyrun", "pad"])
     txt = groups_to_text(groups, rnd, style)
     val = b"".join(g.to_bytes(2, "big") for g in groups)
